@@ -159,6 +159,7 @@ def run_rules(ctx, chk):
         # iteration is even (otherwise a copy taken while an update is in flight can be accepted)
         from . import C03
         sub = type(chk)('C02', LEVEL, chk.tier)
+        sub._nested = True
         C03.run_rules(ctx, sub)
         for o in sub.obs:
             if o['rule'] == 'C03.G4':
